@@ -211,10 +211,18 @@ class ProgGen:
             return r.choice(["b", "p", "b2", "p3"])
         if k < 0.88:
             self.cfg.add("w")
-            return f"{r.choice([2, 3, 5])}a{r.choice([9, 10, 11])}" + (f"k{r.randint(5, 9)}" if r.random() < 0.3 else "")
+            t = f"{r.choice([2, 3, 5])}a{r.choice([9, 10, 11])}" + (f"k{r.randint(5, 9)}" if r.random() < 0.3 else "") + (f"m{r.randint(2, 9)}" if r.random() < 0.2 else "") + \
+                (f"q{r.randint(2, 6)}" if r.random() < 0.15 else "")
+            if r.random() < 0.15:
+                # a pool term in the operand of another one
+                t = r.choice([f"({t})a{r.choice([9, 11])}", f"2a({t})", f"(1+{t})a10k({t})"])
+            return t
         if k < 0.95:
             self.cfg.add("d")
-            return f"{r.choice([2, 3])}c{r.choice([8, 10, 11])}"
+            t = f"{r.choice([2, 3])}c{r.choice([8, 10, 11])}" + (f"m{r.randint(3, 12)}" if r.random() < 0.25 else "")
+            if r.random() < 0.15:
+                t = r.choice([f"(1+{t})c{r.choice([9, 11])}", f"2c(2+{t})"])
+            return t
         return r.choice(["d", "2d", "(2d3)d4", "d优势", "d劣势"])
 
     # ---------- statements
